@@ -327,6 +327,11 @@ pub fn run(a: &Args) -> i32 {
                             // into flock() -- it must stay blocked there until the other one has
                             // closed (checked on the recorded order of hook points)
                             wk.go();
+                            // in the first orderings the holder stays inside for a while longer: a lock wait
+                            // that gives up (polling with a limit) shows only then
+                            if idx < 12 {
+                                std::thread::sleep(Duration::from_millis(150));
+                            }
                         }
                         if at == "open:locked" {
                             inside.insert(p);
@@ -397,7 +402,8 @@ pub fn run(a: &Args) -> i32 {
         let mut params: Vec<Value> = Vec::new();
         for id in 1..=n {
             let delay = rng.gen_range(0..6);
-            let hold = rng.gen_range(0..12);
+            // (every fifth run: one long stay inside, so that the others wait for the lock for a long time)
+            let hold = if i % 5 == 0 && id == 1 { rng.gen_range(90..180) } else { rng.gen_range(0..12) };
             params.push(json!([id, delay, hold]));
             ws.insert(id, spawn(path.to_str().unwrap(), id, false,
                                 &["--delay-ms".into(), delay.to_string(), "--hold-ms".into(), hold.to_string()],
